@@ -326,7 +326,7 @@ CHECKS = {
         "assumptions": ["goroutine and timer interleavings are not owned by the harness; a raft/solo failure is reported with the fault script and the observed per-replica delivery history, it may not replay bit for bit",
                         "a cluster that elects no leader within 15 s or does not converge after healing is counted as inconclusive for that case, never as a violation",
                         "liveness (solo stops proposing after a height mismatch) is outside this safety property"],
-        "quick": [T("TestC20Sync", 2, 400, steps=30), T("TestC20Solo", 6, 8, steps=30), T("TestC20Raft", 16, 6, steps=30, shrink="5s")],
+        "quick": [T("TestC20Sync", 2, 400, steps=30), T("TestC20Solo", 6, 8, steps=30), T("TestC20Raft", 16, 8, steps=30, shrink="5s")],
         "thorough": [T("TestC20Sync", 4, 30000, steps=30, timeout=3000), T("TestC20Solo", 6, 250, steps=30, timeout=3000), T("TestC20Raft", 16, 120, steps=30, timeout=3000, shrink="10s")],
     },
     "C15": {
